@@ -23,6 +23,7 @@ def run(rep, tier):
         "the unlimited run, because the only reader of the tracker is the refusal test), or the result is the "
         "call-limit error. Decided for all grammars, inputs and limits; nothing is executed.")
     configs = ["default"] + (["nomemchr", "pestall"] if tier == "thorough" else [])
+    configs = rep.cfgs(configs)
     rep.configs = configs
     for cfg in configs:
         c = facts.facts(cfg).crate("pest")
